@@ -257,7 +257,23 @@ func comparePages(am, im *http.ServeMux, target string, fail func(key, msg strin
 }
 
 func runEndToEndBatch(w *gen.Writer, root string, n int, vals []string, localPrint bool) {
-	repoVal := vals[0]
+	runEndToEndBatchRepo(w, root, n, vals[0], vals, localPrint)
+}
+
+// replayEndToEnd re-runs one stored end-to-end case: the value alone in a corpus with the stored repository value
+func replayEndToEnd(w *gen.Writer, payload, repoVal string, localPrint bool) {
+	root, err := os.MkdirTemp(os.TempDir(), "c36-e2e-replay-")
+	if err != nil {
+		panic(err)
+	}
+	defer os.RemoveAll(root)
+	if repoVal == "" {
+		repoVal = payload
+	}
+	runEndToEndBatchRepo(w, root, 0, repoVal, []string{payload}, localPrint)
+}
+
+func runEndToEndBatchRepo(w *gen.Writer, root string, n int, repoVal string, vals []string, localPrint bool) {
 	am, aclose, err := e2eSite(root, fmt.Sprintf("a%d", n), repoVal, vals, localPrint)
 	if err != nil {
 		w.Emit(gen.Case{Class: "e2e-build-refused", Go: "the builder refused the batch: " + clipStr(err.Error(), 200), Key: "harness-e2e-build-refused"})
